@@ -304,14 +304,6 @@ func (c04Driver) Shrink(cc core.Case) []core.Case {
 		}
 		return n
 	}
-	if c.Scenario != nil {
-		for _, s := range model.ShrinkScenario(c.Scenario) {
-			n := clone()
-			n.Scenario = s
-			n.Order = fixOrder(n.Order, sortedNames(model.RenderAll(s)))
-			out = append(out, n)
-		}
-	}
 	if c.Twice {
 		n := clone()
 		n.Twice = false
@@ -327,6 +319,14 @@ func (c04Driver) Shrink(cc core.Case) []core.Case {
 		n := clone()
 		n.Sched = s
 		out = append(out, n)
+	}
+	if c.Scenario != nil {
+		for _, s := range model.ShrinkScenario(c.Scenario) {
+			n := clone()
+			n.Scenario = s
+			n.Order = fixOrder(n.Order, sortedNames(model.RenderAll(s)))
+			out = append(out, n)
+		}
 	}
 	if c.Options != (world.Options{}) {
 		n := clone()
